@@ -196,6 +196,12 @@ def facts(U, root):
                 if tg in ("adjacent", "external") and v["kind"] == "newtype" and null_only(U, v["ty"]): F.add("unit_payload_variant")
                 if tg == "internal" and v["kind"] == "newtype": F.add("internal_newtype")
                 if v["kind"] == "newtype" and v["ty"][0] == "tuple" and len(v["ty"][1]) == 1: F.add("one_tuple_variant")
+            # the same shape by another route: an internally tagged enum whose struct variants all carry ONE field of one name is
+            # read back as adjacently tagged (tag + content), the field's type becomes the variant's payload
+            svs = [v for v in d["variants"] if v["kind"] == "struct"]
+            if tg == "internal" and svs and all(len(v["fields"]) == 1 for v in svs) and len({v["fields"][0]["ident"] for v in svs}) == 1 \
+                    and any(v["fields"][0]["ty"][0] == "tuple" and len(v["fields"][0]["ty"][1]) == 1 for v in svs):
+                F.add("one_tuple_variant")
     d = D[root]
     if d["kind"] == "enum":
         tg = d["tag"] if isinstance(d["tag"], str) else list(d["tag"])[0]
